@@ -381,6 +381,11 @@ func (msg MsgUpdateBatchInfo) Validate(ac address.Codec) error {
 		return ErrEmptyBatchInfo
 	}
 
+	// an undeclared chain type has no name: the exported genesis would not validate any more
+	if _, ok := BatchInfo_ChainType_name[int32(msg.NewBatchInfo.ChainType)]; !ok {
+		return ErrInvalidBatchInfo.Wrap("invalid chain type")
+	}
+
 	return nil
 }
 
